@@ -1,440 +1,71 @@
 /-
-  C17 helper lemmas: the minimax worst-defeat table (`MinimaxCondorcet.evaluate`) and its behaviour under `Raised`.
+  C17 helper lemmas: minimax worst defeats under `Raised`.
+  `MinimaxCondorcet.evaluate` (after fix 39ed002) scores every ordered pair of candidates, an unranked pair counting
+  zero against zero; `VotelibProofs/Lemmas/Minimax.lean` (C05) characterises the result through
+  `worstDefeat sc v c` = the maximum over all opponents `o` of `pairScore sc v o c`.
 -/
+import VotelibProofs.Lemmas.Minimax
 import VotelibProofs.Lemmas.MonoCopeland
 namespace VL.Mono
 open VL VL.Condorcet VL.Convert
 
-/-! ### the `max_counterscore` dictionary -/
+theorem pairScore_to_w (sc : Condorcet.Scorer) {v v' : Pairwise} (hwf : WF v) {w : Cand} (h : Raised v v' w) (o : Cand) :
+    pairScore sc v' o w ≤ pairScore sc v o w := by
+  have h1 := h.up o
+  have h2 := h.down o
+  have h3 := pget_nonneg hwf (o, w)
+  cases sc <;> simp only [pairScore]
+  · split <;> split <;> linarith
+  · linarith
+  · exact h2
 
-/-- one update `max(max_counterscore.get(c, -inf), score)` -/
-def omax (o : Option Rat) (x : Rat) : Option Rat :=
-  match o with
-  | none => some x
-  | some a => some (rmax a x)
+theorem pairScore_from_w (sc : Condorcet.Scorer) {v v' : Pairwise} (hwf' : WF v') {w : Cand} (h : Raised v v' w) (y : Cand) :
+    pairScore sc v w y ≤ pairScore sc v' w y := by
+  have h1 := h.up y
+  have h2 := h.down y
+  have h3 := pget_nonneg hwf' (w, y)
+  cases sc <;> simp only [pairScore]
+  · split <;> split <;> linarith
+  · linarith
+  · exact h1
 
-theorem oget_cons (d : Cand) (y : Option Rat) (rest : List (Cand × Option Rat)) (c : Cand) :
-    oget ((d, y) :: rest) c = if d = c then y else oget rest c := by
-  unfold oget
-  by_cases h : d = c <;> simp [List.find?, h]
+theorem pairScore_same (sc : Condorcet.Scorer) {v v' : Pairwise} {w : Cand} (h : Raised v v' w) {o y : Cand}
+    (ho : o ≠ w) (hy : y ≠ w) : pairScore sc v' o y = pairScore sc v o y := by
+  cases sc <;> simp only [pairScore, h.same o y ho hy, h.same y o hy ho]
 
-theorem oget_oset (m : List (Cand × Option Rat)) (c : Cand) (x : Option Rat) (c' : Cand) :
-    oget (oset m c x) c' = if c' = c then x else oget m c' := by
-  induction m with
-  | nil =>
-    simp only [oset, oget_cons]
-    by_cases h : c' = c
-    · rw [if_pos h.symm, if_pos h]
-    · rw [if_neg (fun h' => h h'.symm), if_neg h]
-  | cons e rest ih =>
-    obtain ⟨d, y⟩ := e
-    simp only [oset]
-    by_cases hd : d = c
-    · subst hd
-      rw [if_pos rfl, oget_cons, oget_cons]
-      by_cases h : c' = d
-      · rw [if_pos h.symm, if_pos h]
-      · rw [if_neg (fun h' => h h'.symm), if_neg h, if_neg (fun h' => h h'.symm)]
-    · rw [if_neg hd, oget_cons, oget_cons, ih]
-      by_cases h : d = c'
-      · rw [if_pos h, if_pos h, if_neg (by rw [← h]; exact hd)]
-      · rw [if_neg h, if_neg h]
+/-- the worst defeat of `w` does not grow -/
+theorem worstDefeat_w_le (sc : Condorcet.Scorer) {v v' : Pairwise} (hwf : WF v) (hwf' : WF v') {w : Cand}
+    (h : Raised v v' w) (hc : ∀ c, c ∈ candidates v' ↔ c ∈ candidates v) (hw : w ∈ candidates v) :
+    worstDefeat sc v' w ≤ worstDefeat sc v w := by
+  obtain ⟨⟨o, ho, hne, hs⟩, _⟩ := worstDefeat_spec (sc := sc) (exists_other hwf' ((hc w).mpr hw))
+  obtain ⟨_, hmax⟩ := worstDefeat_spec (sc := sc) (exists_other hwf hw)
+  rw [hs]
+  exact le_trans (pairScore_to_w sc hwf h o) (hmax o ((hc o).mp ho) hne)
 
-theorem keys_oset (m : List (Cand × Option Rat)) (c : Cand) (x : Option Rat) (hc : c ∈ m.map (·.1)) :
-    (oset m c x).map (·.1) = m.map (·.1) := by
-  induction m with
-  | nil => simp at hc
-  | cons e rest ih =>
-    obtain ⟨d, y⟩ := e
-    simp only [oset]
-    by_cases hd : d = c
-    · rw [if_pos hd]; rfl
-    · rw [if_neg hd]
-      simp only [List.map_cons, List.mem_cons] at hc ⊢
-      rcases hc with h | h
-      · exact absurd h.symm hd
-      · rw [ih h]
+/-- the worst defeat of anybody else does not shrink -/
+theorem worstDefeat_y_ge (sc : Condorcet.Scorer) {v v' : Pairwise} (hwf : WF v) (hwf' : WF v') {w : Cand}
+    (h : Raised v v' w) (hc : ∀ c, c ∈ candidates v' ↔ c ∈ candidates v) {y : Cand} (hy : y ∈ candidates v) (hyw : y ≠ w) :
+    worstDefeat sc v y ≤ worstDefeat sc v' y := by
+  obtain ⟨⟨o, ho, hne, hs⟩, _⟩ := worstDefeat_spec (sc := sc) (exists_other hwf hy)
+  obtain ⟨_, hmax⟩ := worstDefeat_spec (sc := sc) (exists_other hwf' ((hc y).mpr hy))
+  rw [hs]
+  refine le_trans ?_ (hmax o ((hc o).mpr ho) hne)
+  by_cases how : o = w
+  · subst how; exact pairScore_from_w sc hwf' h y
+  · rw [pairScore_same sc h how hyw]
 
-def mstep (m : List (Cand × Option Rat)) (e : Pair × Rat) : List (Cand × Option Rat) :=
-  oset m e.1.2 (match oget m e.1.2 with
-    | none => some e.2
-    | some a => some (rmax a e.2))
+/-- minimax through the worst defeats, for a well-formed matrix -/
+theorem minimax_eq_worst (sc : Condorcet.Scorer) (v : Pairwise) (hwf : WF v) :
+    minimax sc v 1 = getNBest ((candidates v).map (fun c => (c, -(worstDefeat sc v c)))) 1 :=
+  minimax_by_worstDefeat sc v 1 (fun _ hc => exists_other hwf hc)
 
-theorem maxCounterscore_eq (sc : Condorcet.Scorer) (v : Pairwise) :
-    maxCounterscore sc v = (scorePairs sc v).foldl mstep ((candidates v).map (fun c => (c, none))) := rfl
-
-theorem oget_mstep (m : List (Cand × Option Rat)) (e : Pair × Rat) (c : Cand) :
-    oget (mstep m e) c = if e.1.2 = c then omax (oget m c) e.2 else oget m c := by
-  unfold mstep
-  rw [oget_oset]
-  by_cases h : c = e.1.2
-  · subst h
-    simp only [↓reduceIte, omax]
-  · rw [if_neg h, if_neg (fun h' => h h'.symm)]
-
-theorem oget_fold (L : List (Pair × Rat)) (m : List (Cand × Option Rat)) (c : Cand) :
-    oget (L.foldl mstep m) c = ((L.filter (fun e => e.1.2 = c)).map (·.2)).foldl omax (oget m c) := by
-  induction L generalizing m with
-  | nil => rfl
-  | cons e rest ih =>
-    rw [List.foldl_cons, ih, oget_mstep]
-    by_cases h : e.1.2 = c
-    · simp [h]
-    · simp [h]
-
-theorem keys_fold (L : List (Pair × Rat)) (m : List (Cand × Option Rat))
-    (h : ∀ e ∈ L, e.1.2 ∈ m.map (·.1)) : (L.foldl mstep m).map (·.1) = m.map (·.1) := by
-  induction L generalizing m with
-  | nil => rfl
-  | cons e rest ih =>
-    rw [List.foldl_cons]
-    have hk : (mstep m e).map (·.1) = m.map (·.1) := keys_oset m _ _ (h e (by simp))
-    rw [ih (mstep m e) (fun e' he' => by rw [hk]; exact h e' (by simp [he'])), hk]
-
-/-- what a fold of `omax` returns: the maximum of the start value and the list -/
-theorem fold_omax_spec (l : List Rat) (o : Option Rat) :
-    (l.foldl omax o = none ↔ o = none ∧ l = []) ∧
-    ∀ s, l.foldl omax o = some s → (o = some s ∨ s ∈ l) ∧ (∀ a, o = some a → a ≤ s) ∧ ∀ x ∈ l, x ≤ s := by
-  induction l generalizing o with
-  | nil =>
-    simp only [List.foldl_nil, and_true, List.not_mem_nil, or_false, false_imp_iff, implies_true, true_and]
-    intro s hs
-    refine ⟨hs, fun a ha => ?_⟩
-    rw [hs] at ha; cases ha; exact le_refl _
-  | cons x rest ih =>
-    rw [List.foldl_cons]
-    obtain ⟨h1, h2⟩ := ih (omax o x)
-    constructor
-    · rw [h1]
-      cases o <;> simp [omax]
-    · intro s hs
-      obtain ⟨h3, h4, h5⟩ := h2 s hs
-      cases o with
-      | none =>
-        simp only [omax] at h3 h4
-        refine ⟨?_, by simp, ?_⟩
-        · rcases h3 with h | h
-          · right; simp only [Option.some.injEq] at h; simp [h]
-          · right; simp [h]
-        · intro y hy
-          rcases List.mem_cons.mp hy with rfl | hy
-          · exact h4 y rfl
-          · exact h5 y hy
-      | some a =>
-        simp only [omax] at h3 h4
-        have hr := h4 (rmax a x) rfl
-        have ha : a ≤ rmax a x := by unfold rmax; split <;> [exact le_of_lt ‹_›; exact le_refl _]
-        have hx : x ≤ rmax a x := by unfold rmax; split <;> [exact le_refl _; exact not_lt.mp ‹_›]
-        refine ⟨?_, ?_, ?_⟩
-        · rcases h3 with h | h
-          · simp only [Option.some.injEq] at h
-            unfold rmax at h
-            split at h
-            · right; simp [← h]
-            · left; simp [← h]
-          · right; simp [h]
-        · intro a' ha'
-          simp only [Option.some.injEq] at ha'
-          subst ha'; exact le_trans ha hr
-        · intro y hy
-          rcases List.mem_cons.mp hy with rfl | hy
-          · exact le_trans hx hr
-          · exact h5 y hy
-
-/-! ### scores of the pairs -/
-
-/-- the score the configured pairwise win scorer gives to the pair `(x, c)` -/
-def sfn (sc : Condorcet.Scorer) (v : Pairwise) (p : Pair) : Rat :=
-  match sc with
-  | .winningVotes => if pget v (p.2, p.1) < pget v p then pget v p else 0
-  | .margins => pget v p - pget v (p.2, p.1)
-  | .pairwiseOpposition => pget v p
-
-theorem scorePairs_eq (sc : Condorcet.Scorer) (v : Pairwise) (hk : (v.map (·.1)).Nodup) :
-    scorePairs sc v = v.map (fun e => (e.1, sfn sc v e.1)) := by
-  unfold scorePairs
-  cases sc <;> simp only [sfn]
-  · apply List.map_congr_left
-    intro e he
-    rw [pget_of_mem hk (show (e.1, e.2) ∈ v from he)]
-  · apply List.map_congr_left
-    intro e he
-    rw [pget_of_mem hk (show (e.1, e.2) ∈ v from he)]
-  · conv_lhs => rw [← List.map_id v]
-    apply List.map_congr_left
-    intro e he
-    rw [pget_of_mem hk (show (e.1, e.2) ∈ v from he)]; rfl
-
-/-- worst defeat of `c` (`none` = nobody is ranked above `c` on any ballot) -/
-def worst (sc : Condorcet.Scorer) (v : Pairwise) (c : Cand) : Option Rat := oget (maxCounterscore sc v) c
-
-theorem worst_spec (sc : Condorcet.Scorer) (v : Pairwise) (hk : (v.map (·.1)).Nodup) (c : Cand) :
-    (worst sc v c = none ↔ ∀ x, (x, c) ∉ v.map (·.1)) ∧
-    ∀ s, worst sc v c = some s →
-      (∃ x, (x, c) ∈ v.map (·.1) ∧ sfn sc v (x, c) = s) ∧ ∀ x, (x, c) ∈ v.map (·.1) → sfn sc v (x, c) ≤ s := by
-  unfold worst
-  rw [maxCounterscore_eq, oget_fold]
-  have h0 : oget ((candidates v).map (fun c => (c, (none : Option Rat)))) c = none := by
-    induction candidates v with
-    | nil => rfl
-    | cons a t ih => rw [List.map_cons, oget_cons]; split <;> [rfl; exact ih]
-  rw [h0, scorePairs_eq sc v hk]
-  have hmem : ∀ s, s ∈ ((v.map (fun e => (e.1, sfn sc v e.1))).filter (fun e => e.1.2 = c)).map (·.2)
-      ↔ ∃ x, (x, c) ∈ v.map (·.1) ∧ sfn sc v (x, c) = s := by
-    intro s
-    simp only [List.mem_map, List.mem_filter, decide_eq_true_eq]
-    constructor
-    · rintro ⟨e', ⟨⟨e, he, rfl⟩, hc⟩, hs⟩
-      simp only at hc hs
-      refine ⟨e.1.1, ⟨e, he, ?_⟩, ?_⟩
-      · rw [← hc]
-      · rw [← hs, ← hc]
-    · rintro ⟨x, ⟨e, he, hx⟩, hs⟩
-      exact ⟨(e.1, sfn sc v e.1), ⟨⟨e, he, rfl⟩, by simp [hx]⟩, by simp [hx, hs]⟩
-  obtain ⟨h1, h2⟩ := fold_omax_spec
-    (((v.map (fun e => (e.1, sfn sc v e.1))).filter (fun e => e.1.2 = c)).map (·.2)) none
-  constructor
-  · rw [h1]
-    simp only [true_and]
-    constructor
-    · intro hnil x hx
-      obtain ⟨e, he, hxe⟩ := List.mem_map.mp hx
-      have : sfn sc v (x, c) ∈ ([] : List Rat) := by rw [← hnil, hmem]; exact ⟨x, hx, rfl⟩
-      simp at this
-    · intro hno
-      rw [List.eq_nil_iff_forall_not_mem]
-      intro s hs
-      obtain ⟨x, hx, _⟩ := (hmem s).mp hs
-      exact hno x hx
-  · intro s hs
-    obtain ⟨h3, _, h5⟩ := h2 s hs
-    refine ⟨?_, fun x hx => h5 _ ((hmem _).mpr ⟨x, hx, rfl⟩)⟩
-    rcases h3 with h | h
-    · cases h
-    · exact (hmem s).mp h
-
-theorem keys_maxCounterscore (sc : Condorcet.Scorer) (v : Pairwise) (hk : (v.map (·.1)).Nodup) :
-    (maxCounterscore sc v).map (·.1) = candidates v := by
-  rw [maxCounterscore_eq, keys_fold]
-  · simp [List.map_map, Function.comp_def]
-  · intro e he
-    rw [scorePairs_eq sc v hk] at he
-    obtain ⟨e0, he0, rfl⟩ := List.mem_map.mp he
-    simp only [List.map_map, Function.comp_def, List.map_id']
-    exact snd_mem_candidates he0
-
-/-! ### the result -/
-
-/-- `a` is a strictly smaller worst defeat than `b` -/
-def wlt : Option Rat → Option Rat → Prop
-  | none, some _ => True
-  | some a, some b => a < b
-  | _, none => False
-
-/-- `a` is at most as bad as `b` -/
-def wle : Option Rat → Option Rat → Prop
-  | none, _ => True
-  | some a, some b => a ≤ b
-  | some _, none => False
-
-theorem wlt_of_wle_of_wlt_of_wle {a' a b b' : Option Rat} (h1 : wle a' a) (h2 : wlt a b) (h3 : wle b b') : wlt a' b' := by
-  cases a' <;> cases a <;> cases b <;> cases b' <;> simp_all [wle, wlt] <;> linarith
-
-/-- the negated table handed to `get_n_best` -/
-def encode (big : Rat) : Option Rat → Rat
-  | some s => -s
-  | none => big
-
-theorem minimax_eq (sc : Condorcet.Scorer) (v : Pairwise) :
-    minimax sc v 1 = getNBest ((maxCounterscore sc v).map
-      (fun e => (e.1, encode (minimaxBig (maxCounterscore sc v)) e.2))) 1 := by
-  unfold minimax
-  simp only
-  congr 1
-
-theorem lt_minimaxBig (m : List (Cand × Option Rat)) (e : Cand × Option Rat) (he : e ∈ m) (s : Rat) (hs : e.2 = some s) :
-    -s < minimaxBig m := by
-  unfold minimaxBig
-  have : ∀ (acc : Rat), acc ≤ m.foldl (fun acc e => match e.2 with | some s => rmax acc (-s) | none => acc) acc ∧
-      -s ≤ m.foldl (fun acc e => match e.2 with | some s => rmax acc (-s) | none => acc) acc := by
-    induction m with
-    | nil => simp at he
-    | cons a t ih =>
-      intro acc
-      rw [List.foldl_cons]
-      have hmono : ∀ (l : List (Cand × Option Rat)) (acc : Rat),
-          acc ≤ l.foldl (fun acc e => match e.2 with | some s => rmax acc (-s) | none => acc) acc := by
-        intro l
-        induction l with
-        | nil => intro acc; exact le_refl _
-        | cons b u ihu =>
-          intro acc
-          rw [List.foldl_cons]
-          refine le_trans ?_ (ihu _)
-          cases b.2 with
-          | none => exact le_refl _
-          | some x => simp only; unfold rmax; split <;> [exact le_of_lt ‹_›; exact le_refl _]
-      have hacc : acc ≤ (match a.2 with | some s => rmax acc (-s) | none => acc) := by
-        cases a.2 with
-        | none => exact le_refl _
-        | some x => simp only; unfold rmax; split <;> [exact le_of_lt ‹_›; exact le_refl _]
-      rcases List.mem_cons.mp he with rfl | he'
-      · refine ⟨le_trans hacc (hmono t _), ?_⟩
-        rw [hs]
-        simp only
-        refine le_trans ?_ (hmono t _)
-        unfold rmax; split <;> [exact le_refl _; exact not_lt.mp ‹_›]
-      · obtain ⟨h1, h2⟩ := ih he' (match a.2 with | some s => rmax acc (-s) | none => acc)
-        exact ⟨le_trans hacc h1, h2⟩
-  exact lt_of_le_of_lt (this 0).2 (lt_one_add _)
-
-theorem oget_eq_of_mem {m : List (Cand × Option Rat)} (hn : (m.map (·.1)).Nodup) {e : Cand × Option Rat} (he : e ∈ m) :
-    oget m e.1 = e.2 := by
-  induction m with
-  | nil => simp at he
-  | cons a t ih =>
-    obtain ⟨d, y⟩ := a
-    rw [oget_cons]
-    simp only [List.map_cons, List.nodup_cons] at hn
-    rcases List.mem_cons.mp he with rfl | he'
-    · simp
-    · rw [if_neg (by rintro rfl; exact hn.1 (List.mem_map.mpr ⟨e, he', rfl⟩))]
-      exact ih hn.2 he'
-
-/-- **Minimax sole winner**: the one-seat result is `[w]` exactly when `w`'s worst defeat is strictly smaller than
-    everybody else's -/
-theorem minimax_sole (sc : Condorcet.Scorer) (v : Pairwise) (hk : (v.map (·.1)).Nodup) (w : Cand) :
-    minimax sc v 1 = [Slot.cand w] ↔
-      w ∈ candidates v ∧ ∀ c ∈ candidates v, c ≠ w → wlt (worst sc v w) (worst sc v c) := by
-  rw [minimax_eq]
-  set m := maxCounterscore sc v with hm
-  have hkm : m.map (·.1) = candidates v := keys_maxCounterscore sc v hk
-  have hnm : (m.map (·.1)).Nodup := by rw [hkm]; exact nodup_candidates v
-  have hkeys : keys (m.map (fun e => (e.1, encode (minimaxBig m) e.2))) = candidates v := by
-    simp only [keys, List.map_map, Function.comp_def]; exact hkm
-  rw [sole_iff _ (by rw [hkeys]; exact nodup_candidates v)]
-  -- entries of the encoded table
-  have hentry : ∀ c x, (c, x) ∈ m.map (fun e => (e.1, encode (minimaxBig m) e.2)) ↔
-      c ∈ candidates v ∧ x = encode (minimaxBig m) (worst sc v c) := by
-    intro c x
-    simp only [List.mem_map, Prod.mk.injEq]
-    constructor
-    · rintro ⟨e, he, rfl, rfl⟩
-      refine ⟨by rw [← hkm]; exact List.mem_map.mpr ⟨e, he, rfl⟩, ?_⟩
-      unfold worst; rw [← hm, oget_eq_of_mem hnm he]
-    · rintro ⟨hc, rfl⟩
-      rw [← hkm] at hc
-      obtain ⟨e, he, rfl⟩ := List.mem_map.mp hc
-      exact ⟨e, he, rfl, by unfold worst; rw [← hm, oget_eq_of_mem hnm he]⟩
-  -- comparison of encoded values
-  have hcmp : ∀ a b, a ∈ candidates v → b ∈ candidates v →
-      (encode (minimaxBig m) (worst sc v b) < encode (minimaxBig m) (worst sc v a) ↔ wlt (worst sc v a) (worst sc v b)) := by
-    intro a b ha hb
-    rw [← hkm] at ha hb
-    obtain ⟨ea, hea, rfl⟩ := List.mem_map.mp ha
-    obtain ⟨eb, heb, rfl⟩ := List.mem_map.mp hb
-    have e1 : worst sc v ea.1 = ea.2 := by unfold worst; rw [← hm, oget_eq_of_mem hnm hea]
-    have e2 : worst sc v eb.1 = eb.2 := by unfold worst; rw [← hm, oget_eq_of_mem hnm heb]
-    rw [e1, e2]
-    cases h1 : ea.2 with
-    | none =>
-      cases h2 : eb.2 with
-      | none => simp [encode, wlt]
-      | some t => simp only [encode, wlt, iff_true]; exact lt_minimaxBig m eb heb t h2
-    | some s =>
-      cases h2 : eb.2 with
-      | none =>
-        simp only [encode, wlt, iff_false, not_lt]
-        exact le_of_lt (lt_minimaxBig m ea hea s h1)
-      | some t => simp only [encode, wlt]; constructor <;> intro h <;> linarith
-  constructor
-  · rintro ⟨x, hwx, hlt⟩
-    obtain ⟨hw, rfl⟩ := (hentry w x).mp hwx
-    refine ⟨hw, fun c hc hcw => ?_⟩
-    rw [← hcmp w c hw hc]
-    exact hlt (c, _) ((hentry c _).mpr ⟨hc, rfl⟩) hcw
-  · rintro ⟨hw, hlt⟩
-    refine ⟨_, (hentry w _).mpr ⟨hw, rfl⟩, fun e he hew => ?_⟩
-    obtain ⟨hc, hx⟩ := (hentry e.1 e.2).mp he
-    rw [hx, hcmp w e.1 hw hc]
-    exact hlt e.1 hc hew
-
-/-! ### behaviour under `Raised` -/
+theorem keys_worstTable (sc : Condorcet.Scorer) (v : Pairwise) :
+    keys ((candidates v).map (fun c => (c, -(worstDefeat sc v c)))) = candidates v := by
+  simp [keys, List.map_map, Function.comp_def]
 
 /-- every stored count is positive (pairwise dictionaries built from ballots of positive weight) -/
 def Positive (v : Pairwise) : Prop := ∀ e ∈ v, 0 < e.2
 
 instance (v : Pairwise) : Decidable (Positive v) := by unfold Positive; infer_instance
-
-theorem mem_keys_iff_pos {v : Pairwise} (hwf : WF v) (hp : Positive v) (p : Pair) :
-    p ∈ v.map (·.1) ↔ 0 < pget v p := by
-  constructor
-  · intro h
-    obtain ⟨e, he, rfl⟩ := List.mem_map.mp h
-    rw [pget_of_mem hwf.1 (show (e.1, e.2) ∈ v from he)]
-    exact hp e he
-  · intro h
-    exact List.mem_map.mpr ⟨_, pget_pos_mem h, rfl⟩
-
-theorem sfn_to_w (sc : Condorcet.Scorer) {v v' : Pairwise} (hwf : WF v) {w : Cand} (h : Raised v v' w) (x : Cand) :
-    sfn sc v' (x, w) ≤ sfn sc v (x, w) := by
-  have h1 := h.up x
-  have h2 := h.down x
-  have h3 := pget_nonneg hwf (x, w)
-  cases sc <;> simp only [sfn]
-  · split <;> split <;> linarith
-  · linarith
-  · exact h2
-
-theorem sfn_from_w (sc : Condorcet.Scorer) {v v' : Pairwise} (hwf' : WF v') {w : Cand} (h : Raised v v' w) (y : Cand) :
-    sfn sc v (w, y) ≤ sfn sc v' (w, y) := by
-  have h1 := h.up y
-  have h2 := h.down y
-  have h3 := pget_nonneg hwf' (w, y)
-  cases sc <;> simp only [sfn]
-  · split <;> split <;> linarith
-  · linarith
-  · exact h1
-
-theorem sfn_same (sc : Condorcet.Scorer) {v v' : Pairwise} {w : Cand} (h : Raised v v' w) {x y : Cand} (hx : x ≠ w) (hy : y ≠ w) :
-    sfn sc v' (x, y) = sfn sc v (x, y) := by
-  cases sc <;> simp only [sfn, h.same x y hx hy, h.same y x hy hx]
-
-theorem worst_w_le (sc : Condorcet.Scorer) {v v' : Pairwise} (hwf : WF v) (hwf' : WF v') (hp : Positive v) (hp' : Positive v')
-    {w : Cand} (h : Raised v v' w) : wle (worst sc v' w) (worst sc v w) := by
-  cases hw' : worst sc v' w with
-  | none => trivial
-  | some s' =>
-    obtain ⟨⟨x, hx, hs'⟩, _⟩ := (worst_spec sc v' hwf'.1 w).2 s' hw'
-    have hpos' := (mem_keys_iff_pos hwf' hp' _).mp hx
-    have hx0 : (x, w) ∈ v.map (·.1) := (mem_keys_iff_pos hwf hp _).mpr (lt_of_lt_of_le hpos' (h.down x))
-    cases hw : worst sc v w with
-    | none => exact absurd hx0 (((worst_spec sc v hwf.1 w).1.mp hw) x)
-    | some s =>
-      have := ((worst_spec sc v hwf.1 w).2 s hw).2 x hx0
-      have h1 := sfn_to_w sc hwf h x
-      show s' ≤ s
-      linarith
-
-theorem worst_y_ge (sc : Condorcet.Scorer) {v v' : Pairwise} (hwf : WF v) (hwf' : WF v') (hp : Positive v) (hp' : Positive v')
-    {w : Cand} (h : Raised v v' w) {y : Cand} (hy : y ≠ w) : wle (worst sc v y) (worst sc v' y) := by
-  cases hw : worst sc v y with
-  | none => trivial
-  | some s =>
-    obtain ⟨⟨x, hx, hs⟩, _⟩ := (worst_spec sc v hwf.1 y).2 s hw
-    have hpos := (mem_keys_iff_pos hwf hp _).mp hx
-    have hkey : (x, y) ∈ v'.map (·.1) ∧ s ≤ sfn sc v' (x, y) := by
-      by_cases hxw : x = w
-      · subst hxw
-        exact ⟨(mem_keys_iff_pos hwf' hp' _).mpr (lt_of_lt_of_le hpos (h.up y)), by
-          rw [← hs]; exact sfn_from_w sc hwf' h y⟩
-      · exact ⟨(mem_keys_iff_pos hwf' hp' _).mpr (by rw [h.same x y hxw hy]; exact hpos), by
-          rw [← hs, sfn_same sc h hxw hy]⟩
-    cases hw' : worst sc v' y with
-    | none => exact absurd hkey.1 (((worst_spec sc v' hwf'.1 y).1.mp hw') x)
-    | some s' =>
-      have := ((worst_spec sc v' hwf'.1 y).2 s' hw').2 x hkey.1
-      show s ≤ s'
-      linarith [hkey.2]
 
 end VL.Mono
